@@ -418,6 +418,18 @@ fn step(rng: &mut Rng, sink: &mut Sink, w: &mut World, focus: &str) {
         w.execute(sink, &c, &chain, &id, &src, &payload, 0);
         return;
     }
+    if focus == "C04" && w.next_tm > 0 && rng.chance(1, 30) {
+        // every account in turn (operators and minters of the manager among them) asks a token manager directly to hand
+        // out tokens: only the service may
+        let tm = tm_addr(rng.below(w.next_tm as u64) as usize);
+        let dest = user(rng.below(6) as u8);
+        for i in 0..6u8 {
+            let f = if rng.chance(3, 4) { "giveToken" } else { "mint" };
+            sink.exec(&format!("tx {} {} {} 0 - {}", hex::encode(user(i)), hex::encode(&tm), f, args(&[dest.clone(), nat(7)])));
+        }
+        sink.exec(&format!("bal {} {}", hex::encode(&dest), TOK));
+        return;
+    }
     if focus == "C13" && rng.chance(1, 10) {
         let c = user(rng.below(6) as u8);
         inbound_other_types(rng, sink, w, &c);
